@@ -33,7 +33,7 @@ RULE = (
     "(operation scripts, maxsize, sequence of (task, location) at context switches)."
 )
 ASSUMPTIONS = ["values are unique per set so every observed/disposed value is attributable to one write", "PoolManager in this tree evicts without a dispose callback: evicted pools close when garbage collected; the harness calls gc.collect() at scripted points"]
-REQUIRED_PROBES = {"quick": ["lru_concurrent", "lru_sequential", "lru_enumerated_sequences", "evicted", "replaced", "cleared", "pm_evicted_inflight_ok", "pm_same_pool_identity", "pm_cleared", "preempted", "lock_contended"], "thorough": ["lru_concurrent", "lru_sequential", "lru_enumerated_sequences", "evicted", "replaced", "cleared", "pm_evicted_inflight_ok", "pm_same_pool_identity", "pm_cleared", "preempted", "lock_contended"]}
+REQUIRED_PROBES = {"quick": ["lru_concurrent", "lru_sequential", "lru_enumerated_sequences", "evicted", "replaced", "cleared", "pm_evicted_inflight_ok", "pm_same_pool_identity", "pm_cache_linearizable", "pm_cleared", "preempted", "lock_contended"], "thorough": ["lru_concurrent", "lru_sequential", "lru_enumerated_sequences", "evicted", "replaced", "cleared", "pm_evicted_inflight_ok", "pm_same_pool_identity", "pm_cache_linearizable", "pm_cleared", "preempted", "lock_contended"]}
 
 KEYS = ["a", "b", "c", "d"]
 
@@ -87,6 +87,14 @@ def gen_pm(rng):
     origins = ["http://a.test", "http://b.test", "http://c.test"][: rng.choice([2, 3])]
     ntasks = rng.choice([2, 2, 3])
     tasks = []
+    if rng.random() < 0.4:
+        # cache-only history (lookups and clear()): every result is observable, so the manager's cache is checked for
+        # linearizability against a get-or-create LRU model, final content included
+        origins = origins[: rng.choice([1, 2, len(origins)])]
+        for i in range(ntasks):
+            ops = [({"op": "lookup", "url": rng.choice(origins) + "/"} if rng.random() < 0.7 else {"op": "clear"}) for _ in range(rng.choice([1, 2, 3]))]
+            tasks.append({"name": f"T{i}", "ops": ops})
+        return {"property": ID, "kind": "pm", "num_pools": rng.choice([1, 1, 2, 3]), "tasks": tasks, "schedule": gen_schedule(rng)}
     for i in range(ntasks):
         ops = []
         for j in range(rng.choice([1, 2, 3])):
@@ -101,7 +109,15 @@ def gen_pm(rng):
             else:
                 ops.append({"op": "clear"})
         tasks.append({"name": f"T{i}", "ops": ops})
-    return {"property": ID, "kind": "pm", "num_pools": rng.choice([1, 1, 2]), "tasks": tasks, "schedule": gen_schedule(rng)}
+    sc = {"property": ID, "kind": "pm", "num_pools": rng.choice([1, 1, 2]), "tasks": tasks, "schedule": gen_schedule(rng)}
+    if rng.random() < 0.5:
+        sc["pool_maxsize"] = 2
+    if rng.random() < 0.35:
+        # one exchange loses its connection: a discarded connection leaves a placeholder in the pool's queue, possibly on top
+        # of an idle connection, before the pool is evicted, cleared or dropped
+        n_before = rng.choice([0, 1, 1, 2, 3])
+        sc["exchanges"] = [{"k": "resp"}] * n_before + [{"k": rng.choice(["eof", "rst"])}]
+    return sc
 
 
 # alphabet of the exhaustive single-caller stratum: 4 keys x (set, get, delete) + clear, len, keys = 15 operations
@@ -277,6 +293,50 @@ def linearizable(history, maxsize):
     return rec(0, Model(maxsize))
 
 
+def pm_linearizable(history, num_pools, final) -> bool:
+    """PoolManager cache as a concurrent get-or-create LRU map: lookup(host) returns the cached pool or a pool never seen
+    before (inserted, least recently used entry evicted beyond num_pools); clear() empties; `final` is the content once
+    every task has finished.  Wing-Gong search over the recorded invoke/return intervals."""
+    n = len(history)
+    seen = set()
+
+    def rec(done, state, used):
+        if done == (1 << n) - 1:
+            return dict(state) == final
+        key = (done, tuple(state.items()), used)
+        if key in seen:
+            return False
+        seen.add(key)
+        pending = [i for i in range(n) if not done & (1 << i)]
+        min_ret = min(history[i]["ret"] for i in pending)
+        for i in pending:
+            h = history[i]
+            if h["inv"] > min_ret:
+                continue
+            st = OrderedDict(state)
+            us = used
+            if h["op"] == "clear":
+                st.clear()
+            else:
+                k, tok = h["key"], h["result"]
+                if k in st:
+                    if st[k] != tok:
+                        continue
+                    st.move_to_end(k)
+                else:
+                    if tok in used:
+                        continue  # a pool that had been handed out before cannot be "new"
+                    us = used | {tok}
+                    st[k] = tok
+                    if len(st) > num_pools:
+                        st.popitem(last=False)
+            if rec(done | (1 << i), st, us):
+                return True
+        return False
+
+    return rec(0, OrderedDict(), frozenset())
+
+
 # ----------------------------------------------------------------------------- runs
 
 
@@ -403,13 +463,17 @@ def run_pm(sc) -> Result:
 
     res = Result()
     urllib3 = H.u3()
-    w = W.World({})
+    w = W.World({"exchanges": list(sc.get("exchanges") or [])})
     w.default_listener = H.origin_factory()
+    injected = sum(1 for e in sc.get("exchanges") or [] if e.get("k") in ("eof", "rst"))
     with H.RunEnv(), H.quiet_warnings(), w:
         sched = S.Scheduler(w, sc["schedule"])
-        pm = urllib3.PoolManager(num_pools=sc["num_pools"], timeout=5.0, retries=False)
+        pm = urllib3.PoolManager(num_pools=sc["num_pools"], timeout=5.0, retries=False, **({"maxsize": sc["pool_maxsize"]} if sc.get("pool_maxsize") else {}))
         pm.pools.lock = sync.SimRLock()
         over = []
+        seqno = [0]
+        cache_hist = []  # invoke/return stamped lookups and clears (for the linearizability check of cache-only histories)
+        tokens = {}  # id(pool) -> token; the pools are kept alive in `lookups`, so ids are not reused
         lookups = []  # (url origin, id(pool), step)
         evict_possible = [False]
         origins_used = set()
@@ -425,10 +489,16 @@ def run_pm(sc) -> Result:
                 held = []
                 for op in task["ops"]:
                     kind = op["op"]
+                    hrec_ = None
+                    if kind in ("lookup", "clear"):
+                        seqno[0] += 1
+                        hrec_ = {"op": kind, "key": op.get("url", "").split("/")[2] if kind == "lookup" else None, "inv": seqno[0], "ret": None, "result": None, "task": task["name"]}
+                        cache_hist.append(hrec_)
                     try:
                         if kind == "lookup":
                             p = pm.connection_from_url(op["url"])
                             lookups.append((op["url"].split("/")[2], p))
+                            hrec_["result"] = tokens.setdefault(id(p), f"P{len(tokens)}")
                         elif kind == "request":
                             r = pm.request("GET", op["url"])
                             out.append(("ok", op["url"], r.status, r.data))
@@ -443,6 +513,9 @@ def run_pm(sc) -> Result:
                     except Exception as e:
                         H.strip_tb(e)
                         out.append(("exc", op.get("url"), e))
+                    if hrec_ is not None:
+                        seqno[0] += 1
+                        hrec_["ret"] = seqno[0]
                     check_bound(kind)
                     for hrec in list(held):
                         hrec[0] -= 1
@@ -488,6 +561,8 @@ def run_pm(sc) -> Result:
                         res.bad("wrong_response", f"{t.name} {item[1]}: {item[2]} {item[3][:50]!r}")
                     elif "/s" in item[1]:
                         res.probes["pm_inflight_read"] += 1
+                elif injected and H.is_urllib3_error(item[2]) and not isinstance(item[2], ClosedPoolError) and w.faults_fired:
+                    res.probes["pm_injected_failure_surfaced"] += 1
                 elif item[0] == "exc_inflight":
                     res.bad("inflight_response_broken", f"{t.name} {item[1]}: {item[2]!r:.140} (pool evicted or cleared while the response was being read)")
                 else:
@@ -506,6 +581,17 @@ def run_pm(sc) -> Result:
                 res.bad("duplicate_pools_for_equal_parameters", f"{ {k_: len(v) for k_, v in by.items()} }")
             elif lookups:
                 res.probes["pm_same_pool_identity"] += 1
+        if all(op["op"] in ("lookup", "clear") for t in sc["tasks"] for op in t["ops"]) and not res.violations and all(h["ret"] is not None for h in cache_hist):
+            final = {}
+            try:
+                for key in pm.pools.keys():
+                    final[key.key_host] = tokens.get(id(pm.pools[key]), "P?")
+            except Exception as e:  # a key vanished between keys() and the lookup: nobody else is running any more
+                res.bad(f"unexpected_exception:{type(e).__name__}", repr(e)[:140])
+            if not pm_linearizable(cache_hist, sc["num_pools"], final):
+                res.bad("pm_cache_not_linearizable", "no order of the get-or-create LRU cache explains: " + "; ".join(f"{h['task']}:{h['op']}({h['key'] or ''})->{h['result']} [{h['inv']},{h['ret']}]" for h in cache_hist) + f"; cached at the end: {final}")
+            else:
+                res.probes["pm_cache_linearizable"] += 1
         if n_origins > sc["num_pools"] and any(op["op"] == "stream" for t in sc["tasks"] for op in t["ops"]) and not res.violations:
             res.probes["pm_evicted_inflight_ok"] += 1
         if evict_possible[0]:
@@ -532,6 +618,9 @@ def run_pm(sc) -> Result:
         left = w.open_sockets()
         if left:
             res.bad("socket_open_after_manager_dropped", f"{len(left)} sockets: {left}")
+        by_gc = [e[2] for e in w.events if e[1] == "close_dealloc"]
+        if by_gc:
+            res.bad("socket_closed_only_by_garbage_collection", f"sockets {by_gc} of evicted/cleared/dropped pools were never closed by urllib3, only reclaimed when the socket object was deallocated")
         res.faults.update(w.faults_fired)
         res.digest = w.digest()
         res.trace = hash((repr(sc["tasks"]), sc["num_pools"], w.abstract_trace()))
@@ -576,6 +665,15 @@ def shrinks(sc):
             c = copy.deepcopy(sc)
             c["schedule"] = {"decisions": dec[:i] + dec[i + 1 :]}
             yield c
+    for fld in ("pool_maxsize",):
+        if sc.get(fld):
+            c = copy.deepcopy(sc)
+            del c[fld]
+            yield c
+    for i in range(len(sc.get("exchanges") or [])):
+        c = copy.deepcopy(sc)
+        del c["exchanges"][i]
+        yield c
     for ti, t in enumerate(sc["tasks"]):
         for oi in range(len(t["ops"])):
             c = copy.deepcopy(sc)
